@@ -7,7 +7,7 @@ OUT=/tmp/seeded_out/$ID
 W=/tmp/wt/verify-$ID-$K
 LOG=$OUT/verify_$K.txt
 export RUSTUP_TOOLCHAIN=stable-x86_64-unknown-linux-gnu CARGO_NET_OFFLINE=true
-export CARGO_TARGET_DIR=/tmp/wt/target-verify
+export CARGO_TARGET_DIR=${SEEDCHECK_TARGET:-/tmp/wt/target-verify}
 : > $LOG
 git -C /repo worktree remove --force $W 2>/dev/null
 git -C /repo worktree add -q --detach $W HEAD || { echo "worktree failed" >> $LOG; exit 2; }
